@@ -415,5 +415,82 @@ impl Strategy {
 }
 //@ WRAPPER_END
 
+impl Level {
+    #[verifier::external_body]
+    fn run_count(&self) -> (r: usize) ensures r == self.runs@.len() { unimplemented!() }
+}
+impl Version {
+    /// Version::l0 = level 0 (src/version/mod.rs; the version always has its 7 levels)
+    #[verifier::external_body]
+    fn l0(&self) -> (r: &Level) requires self.levels@.len() > 0 ensures r == &self.levels@[0] { unimplemented!() }
+    /// Version::level_is_busy: some table of that level is hidden (not needed by the contract below)
+    #[verifier::external_body]
+    fn level_is_busy(&self, idx: usize, hidden_set: &HiddenSet) -> (r: bool) { unimplemented!() }
+}
+/// `level.iter().flat_map(f).map(Table::id).next()`: the id of the first table f yields, if any (only its emptiness is used)
+#[verifier::external_body]
+fn first_flat_map_id<'a, F: FnMut(&'a Run) -> &'a [Table]>(level: &'a Level, f: F) -> (r: Option<u64>)
+    requires forall|i: int| 0 <= i < level.runs@.len() ==> call_requires(f, (&#[trigger] level.runs@[i],)),
+{ unimplemented!() }
+/// `a.min(b)` on usize (std)
+#[verifier::external_body]
+fn usize_min(a: usize, b: usize) -> (r: usize) ensures r == if a <= b { a } else { b } { unimplemented!() }
+
+//@ WRAPPER_BEGIN
+impl Strategy {
+    /// wrapper (generated, R24) around the labeled block `'trivial: { .. }` of choose (trivial move of L0 into the canonical L1)
+    fn trivial_l1(&self, version: &Version, state: &CompactionState, first_non_empty_level: usize, canonical_l1_idx: usize) -> (r: Option<Choice>)
+        requires version.levels@.len() == 7, forall|k: int| 0 <= k < 7 ==> level_wf(#[trigger] version.levels@[k]), first_non_empty_level < 7,
+        ensures r is Some ==> r->Some_0 is Move && ({ let inp = r->Some_0->Move_0;
+            // all of L0 moves (it is a single run), and never below the first non-empty level: it lands on top of it or above it   // @OBL C01.44, C07.21
+            version.levels@[0].runs@.len() == 1 && inp.dest_level <= first_non_empty_level && inp.dest_level <= canonical_l1_idx
+            && (forall|t: Table| in_level(version.levels@[0], t) ==> inp.table_ids.view().contains(#[trigger] t.id)) }),
+    {
+//@ FROM src/compaction/leveled/mod.rs :: CompactionStrategy for Strategy :: fn choose :: STMTS `'trivial : {` .. `'trivial : {` :: OBL C01.44, C07.21
+//@ SUBST `'trivial : {` ==> `{`
+//@ SUBST `break 'trivial ;` ==> `return None;`
+//@ SUBST `return Choice :: Move ( $1 ) ;` ==> `return Some(Choice::Move($1));`
+//@ SUBST `first_non_empty_level . min ( canonical_l1_idx )` ==> `usize_min(first_non_empty_level, canonical_l1_idx)`
+//@ SUBST `target_level . iter ( ) . flat_map ( $1 ) . map ( Table :: id ) . next ( )` ==> `first_flat_map_id(target_level, $1)`
+        {
+            let first_level = version.l0();
+            let target_level_idx = usize_min(first_non_empty_level, canonical_l1_idx);
+
+            if first_level.run_count() == 1 {
+                if version.level_is_busy(0, state.hidden_set())
+                    || version.level_is_busy(target_level_idx, state.hidden_set())
+                {
+                    return None;
+                }
+
+                let Some(target_level) = &version.level(target_level_idx) else {
+                    return None;
+                };
+
+                if target_level.run_count() != 1 {
+                    return None;
+                }
+
+                let key_range = first_level.aggregate_key_range();
+
+                // Get overlapping tables in next level
+                let get_overlapping = first_flat_map_id(target_level, |run/*+*/: &Run/*-*/| /*+*/-> (s: &[Table]) requires run_wf(run.0@) {/*-*/ run.get_overlapping(&key_range) /*+*/}/*-*/);
+
+                if get_overlapping.is_none() && first_level.is_disjoint() {
+                    return Some(Choice::Move(CompactionInput {
+                        table_ids: first_level.list_ids(),
+                        dest_level: target_level_idx as u8,
+                        canonical_level: 1,
+                        target_size: self.target_size,
+                    }));
+                }
+            }
+        }
+        /*+*/None/*-*/
+//@ END
+    }
+}
+//@ WRAPPER_END
+
 } // verus!
 fn main() {}
